@@ -25,15 +25,16 @@ VARIABLES l,        \* position in Rec
           saved,    \* stack of saved [fs, src] (sweeps fork the state)
           follow,   \* "" | "bk" | "gc": the actor whose call is being followed
           drift,    \* collected drift records
-          nchecked  \* number of calls followed to their end without drift
+          nchecked, \* number of calls followed to their end without drift
+          nfaults   \* number of injected write failures the model took along
 
-pvars == <<l, scen, saved, follow, drift, nchecked>>
+pvars == <<l, scen, saved, follow, drift, nchecked, nfaults>>
 allvars == <<vars, pvars>>
 
 \* name of a block: looked up among the names the trace itself shows for that content
 Names == { <<Rec[i].dec.c, Rec[i].key.h>> : i \in {j \in 1..Len(Rec) : Rec[j].ev = "op" /\ Rec[j].verb = "write" /\ Rec[j].key.t = "Block"
                                                          /\ Rec[j].dec.st = "ok"} }
-HashT(c) == IF \E x \in Names : x[1] = c THEN (CHOOSE x \in Names : x[1] = c)[2] ELSE <<"unnamed", c>>
+HashT(c) == IF \E x \in Names : x[1] = c THEN (CHOOSE x \in Names : x[1] = c)[2] ELSE "unnamed:" \o ToString(c)
 
 FsOfJson(j) ==
     [hdr   |-> j.hdr, lock  |-> j.lock,
@@ -74,12 +75,33 @@ D(what, detail) == {<<scen, what, l, ToString(detail)>>}
 (***************************************************************************)
 (* Steps.                                                                  *)
 (***************************************************************************)
+\* an injected failure of a write or create_dir of the followed call: the model's pending write fails too
+RelevantFail(r) ==
+    /\ r.ev = "op" /\ r.inj = "fail" /\ r.res # "ok"
+    /\ r.verb \in {"write", "create_dir"}
+
+\* an injected failure of a read: the model's eager reads cannot be aligned with it; stop following
+ReadFail(r) ==
+    /\ r.ev = "op" /\ r.inj = "fail" /\ r.res # "ok"
+    /\ r.verb \notin {"write", "create_dir"}
+
 \* a model step that leaves the archive alone, taken before looking at the next event
 Silent ==
     /\ follow # "" /\ ~ModelAtWrite
     /\ (IF follow = "bk" THEN BkNext ELSE GcNext)
-    /\ fs' = fs
+    /\ fs' = fs /\ cnt' = cnt
     /\ UNCHANGED pvars
+
+\* the followed call's next write was made to fail: the model takes the failing branch of its pending write
+FaultMatch ==
+    /\ follow = "bk" /\ ModelAtWrite
+    /\ l <= Len(Rec)
+    /\ LET r == Rec[l] IN RelevantFail(r) /\ r.actor = follow
+    /\ BkNext
+    /\ fs' = fs /\ cnt'.faults = cnt.faults + 1
+    /\ l' = l + 1
+    /\ nfaults' = nfaults + 1
+    /\ UNCHANGED <<scen, saved, follow, drift, nchecked>>
 
 \* the next event is a relevant mutation by the followed actor: the model must make it too
 Match ==
@@ -88,23 +110,24 @@ Match ==
     /\ LET r == Rec[l] IN
        /\ Relevant(r) /\ r.actor = follow
        /\ (IF follow = "bk" THEN BkNext ELSE GcNext)
-       /\ fs' = RealNext(r)
+       /\ fs' = RealNext(r) /\ cnt' = cnt
     /\ l' = l + 1
-    /\ UNCHANGED <<scen, saved, follow, drift, nchecked>>
+    /\ UNCHANGED <<scen, saved, follow, drift, nchecked, nfaults>>
 
 \* ... and if the model cannot, that is drift: adopt the real archive, stop following this call
 Drift ==
     /\ follow # "" /\ ModelAtWrite
     /\ l <= Len(Rec)
     /\ LET r == Rec[l] IN
-       /\ Relevant(r) /\ r.actor = follow
-       /\ ~ENABLED Match
+       /\ r.actor = follow
+       /\ \/ (Relevant(r) /\ ~ENABLED Match)
+          \/ (RelevantFail(r) /\ ~ENABLED FaultMatch)
        /\ fs' = RealNext(r)
        /\ drift' = drift \cup D("mutation-not-in-reference-program",
                                 <<r.verb, r.key.t, r.key.b, r.key.n, IF follow = "bk" THEN bk.pc ELSE gc.pc>>)
     /\ bk' = IdleBk /\ gc' = IdleGc /\ follow' = ""
     /\ l' = l + 1
-    /\ UNCHANGED <<src, snap, partial, cnt, scen, saved, nchecked>>
+    /\ UNCHANGED <<src, snap, partial, cnt, scen, saved, nchecked, nfaults>>
 
 \* the call returns: the model must have nothing left to write (unless the call was killed)
 Return ==
@@ -113,7 +136,7 @@ Return ==
     /\ LET r == Rec[l] IN
        /\ r.ev = "ret" /\ r.actor = follow
        /\ LET finished == IF follow = "bk" THEN bk.pc \in {"Done", "Idle"} ELSE gc.pc \in {"Done", "Idle"}
-              sameres  == IF follow = "bk" THEN (bk.pc = "Done" => (bk.res = "ok") = (r.res = "ok"))
+              sameres  == IF follow = "bk" THEN (bk.pc = "Done" => ((bk.res = "ok") = (r.res = "ok") /\ (r.res = "ok" => bk.errors = r.errors)))
                           ELSE (gc.pc = "Done" => (gc.res = "ok") = (r.res = "ok"))
           IN
           /\ drift' = drift \cup (IF r.crashed \/ finished THEN {} ELSE D("reference-program-has-more-to-write", IF follow = "bk" THEN bk.pc ELSE gc.pc))
@@ -121,62 +144,66 @@ Return ==
           /\ nchecked' = IF (r.crashed \/ (finished /\ sameres)) THEN nchecked + 1 ELSE nchecked
     /\ bk' = IdleBk /\ gc' = IdleGc /\ follow' = ""
     /\ l' = l + 1
-    /\ UNCHANGED <<fs, src, snap, partial, cnt, scen, saved>>
+    /\ UNCHANGED <<fs, src, snap, partial, cnt, scen, saved, nfaults>>
 
 \* any other event while following: mutations by others are applied, the rest is skipped
 Other ==
     /\ ModelAtWrite
     /\ l <= Len(Rec)
     /\ LET r == Rec[l] IN
-       /\ ~(follow # "" /\ ((Relevant(r) /\ r.actor = follow) \/ (r.ev = "ret" /\ r.actor = follow)))
+       /\ ~(follow # "" /\ r.ev \in {"op", "ret"} /\ r.actor = follow /\ (Relevant(r) \/ RelevantFail(r) \/ r.ev = "ret"))
        /\ CASE r.ev = "scenario" ->
                  /\ fs' = EmptyFs /\ src' = <<>> /\ bk' = IdleBk /\ gc' = IdleGc /\ snap' = <<>> /\ partial' = {}
                  /\ cnt' = [backups |-> 0, deletes |-> 0, faults |-> 0]
-                 /\ scen' = r.id /\ saved' = <<>> /\ follow' = "" /\ UNCHANGED <<drift, nchecked>>
+                 /\ scen' = r.id /\ saved' = <<>> /\ follow' = "" /\ UNCHANGED <<drift, nchecked, nfaults>>
             [] r.ev = "src" ->
-                 /\ src' = TreeOfNodes(r.tree) /\ UNCHANGED <<fs, bk, gc, snap, partial, cnt, scen, saved, follow, drift, nchecked>>
-            [] r.ev = "call" /\ r.fn = "backup" /\ ~r.injected /\ r.excl = <<>> /\ ~r.own_tree /\ follow = "" /\ r.owner ->
+                 /\ src' = TreeOfNodes(r.tree) /\ UNCHANGED <<fs, bk, gc, snap, partial, cnt, scen, saved, follow, drift, nchecked, nfaults>>
+            [] r.ev = "call" /\ r.fn = "backup" /\ r.excl = <<>> /\ ~r.own_tree /\ follow = "" /\ r.owner ->
                  /\ bk' = [pc |-> "CheckLock", o |-> [H |-> r.H, M |-> r.M, S |-> r.S], band |-> -1, basis |-> <<>>, know |-> {},
                            pending |-> <<>>, finished |-> <<>>, buf |-> <<>>, queue |-> <<>>,
                            hunkNo |-> 0, todo |-> SortPaths(DOMAIN src), cur |-> <<>>, addrs |-> <<>>, buf2 |-> <<>>,
                            ret |-> "", errors |-> 0, res |-> "", faulty |-> FALSE, nblk |-> 0, want |-> src]
                  /\ follow' = "bk"
-                 /\ UNCHANGED <<fs, src, gc, snap, partial, cnt, scen, saved, drift, nchecked>>
+                 /\ UNCHANGED <<fs, src, gc, snap, partial, cnt, scen, saved, drift, nchecked, nfaults>>
             [] r.ev = "call" /\ r.fn = "delete" /\ ~r.injected /\ follow = "" /\ SeqRange(r.bands) \subseteq Bands(fs) ->
                  /\ gc' = [pc |-> "ListBands", del |-> SeqRange(r.bands), dry |-> r.dry, last |-> -1, keep |-> {}, toread |-> {},
                            referenced |-> {}, unref |-> {}, todel |-> {}, res |-> "", fs0 |-> fs, faulty |-> FALSE]
                  /\ follow' = "gc"
-                 /\ UNCHANGED <<fs, src, bk, snap, partial, cnt, scen, saved, drift, nchecked>>
+                 /\ UNCHANGED <<fs, src, bk, snap, partial, cnt, scen, saved, drift, nchecked, nfaults>>
+            [] r.ev = "op" /\ follow # "" /\ r.actor = follow /\ ReadFail(r) ->
+                 \* a read of the followed call was made to fail: not followed further (no drift)
+                 /\ bk' = IdleBk /\ gc' = IdleGc /\ follow' = ""
+                 /\ UNCHANGED <<fs, src, snap, partial, cnt, scen, saved, drift, nchecked, nfaults>>
             [] r.ev = "op" ->
-                 /\ fs' = RealNext(r) /\ UNCHANGED <<src, bk, gc, snap, partial, cnt, scen, saved, follow, drift, nchecked>>
+                 /\ fs' = RealNext(r) /\ UNCHANGED <<src, bk, gc, snap, partial, cnt, scen, saved, follow, drift, nchecked, nfaults>>
             [] r.ev = "fsck" ->
-                 /\ fs' = FsOfJson(r.fs) /\ UNCHANGED <<src, bk, gc, snap, partial, cnt, scen, saved, follow, drift, nchecked>>
+                 /\ fs' = FsOfJson(r.fs) /\ UNCHANGED <<src, bk, gc, snap, partial, cnt, scen, saved, follow, drift, nchecked, nfaults>>
             [] r.ev = "save" ->
-                 /\ saved' = Append(saved, [fs |-> fs, src |-> src]) /\ UNCHANGED <<vars, scen, follow, drift, nchecked>>
+                 /\ saved' = Append(saved, [fs |-> fs, src |-> src]) /\ UNCHANGED <<vars, scen, follow, drift, nchecked, nfaults>>
             [] r.ev = "reset" ->
                  /\ fs' = saved[Len(saved)].fs /\ src' = saved[Len(saved)].src /\ bk' = IdleBk /\ gc' = IdleGc /\ follow' = ""
-                 /\ UNCHANGED <<snap, partial, cnt, scen, saved, drift, nchecked>>
+                 /\ UNCHANGED <<snap, partial, cnt, scen, saved, drift, nchecked, nfaults>>
             [] r.ev = "unsave" ->
-                 /\ saved' = SubSeq(saved, 1, Len(saved) - 1) /\ UNCHANGED <<vars, scen, follow, drift, nchecked>>
+                 /\ saved' = SubSeq(saved, 1, Len(saved) - 1) /\ UNCHANGED <<vars, scen, follow, drift, nchecked, nfaults>>
             [] r.ev = "new_archive" ->
                  /\ fs' = EmptyFs /\ bk' = IdleBk /\ gc' = IdleGc /\ follow' = ""
-                 /\ UNCHANGED <<src, snap, partial, cnt, scen, saved, drift, nchecked>>
-            [] OTHER -> UNCHANGED <<vars, scen, saved, follow, drift, nchecked>>
+                 /\ UNCHANGED <<src, snap, partial, cnt, scen, saved, drift, nchecked, nfaults>>
+            [] OTHER -> UNCHANGED <<vars, scen, saved, follow, drift, nchecked, nfaults>>
     /\ l' = l + 1
 
 PInit ==
-    /\ l = 1 /\ scen = "" /\ saved = <<>> /\ follow = "" /\ drift = {} /\ nchecked = 0
+    /\ l = 1 /\ scen = "" /\ saved = <<>> /\ follow = "" /\ drift = {} /\ nchecked = 0 /\ nfaults = 0
     /\ fs = EmptyFs /\ src = <<>> /\ bk = IdleBk /\ gc = IdleGc /\ snap = <<>> /\ partial = {}
     /\ cnt = [backups |-> 0, deletes |-> 0, faults |-> 0]
 
-PNext == Silent \/ Match \/ Drift \/ Return \/ Other
+PNext == Silent \/ Match \/ FaultMatch \/ Drift \/ Return \/ Other
 
 PSpec == PInit /\ [][PNext]_allvars
 
 RECURSIVE SetToSeq(_)
 SetToSeq(S) == IF S = {} THEN <<>> ELSE LET x == CHOOSE y \in S : TRUE IN <<x>> \o SetToSeq(S \ {x})
 
-Report == l > Len(Rec) => JsonSerialize(IOEnv.VIOLOUT, [drift |-> SetToSeq(drift), nchecked |-> nchecked])
+Report == l > Len(Rec) => JsonSerialize(IOEnv.VIOLOUT, [drift |-> SetToSeq(drift), nchecked |-> nchecked, nfaults |-> nfaults])
 
 \* every event was consumed
 Consumed == TLCGet("level") >= Len(Rec)
